@@ -409,8 +409,8 @@ def run_undecryptable(case):
 
 def parts(tier):
     quick = tier != 'thorough'
-    return [Part('idp-confidentiality', run_idp, strategy=idp_strategy, examples=400 if quick else 20000),
-            Part('sp-equal-validation', run_sp, strategy=sp_strategy, examples=700 if quick else 30000),
-            Part('sp-encrypted-advice', run_advice, strategy=advice_strategy, examples=300 if quick else 10000),
+    return [Part('idp-confidentiality', run_idp, strategy=idp_strategy, examples=400 if quick else 10000),
+            Part('sp-equal-validation', run_sp, strategy=sp_strategy, examples=700 if quick else 15000),
+            Part('sp-encrypted-advice', run_advice, strategy=advice_strategy, examples=300 if quick else 5000),
             Part('metadata-reload', run_reload, cases=reload_cases, exhaustive=True),
         Part('undecryptable', run_undecryptable, cases=undecryptable_cases, exhaustive=True)]
